@@ -416,4 +416,13 @@ def obligations(tier, sc):
                 continue
             ob.name = "task_events_no_crash_" + ob.name
             obs.append(ob)
+    # ---- numbers in the JSON metadata (ovni.loom_cpus[].index / phyid, ranks): ovniemu's system construction on
+    # arbitrary values.  These are C15's obligations on the real loom.c / system.c (CPU index and phyid over all
+    # int64/int, CBMC's bounds checks on), re-run under this property: a seeded change replaced the range check of
+    # loom_init_end by loom_get_cpu() != NULL, after which a sparse CPU index wrote outside cpus_array (SIGSEGV).
+    from checks import C15 as _c15
+    for ob in _c15.obligations(tier, sc):
+        if ob.name in ("loom_cpus_merge", "sys_init_1stream") and not ob.expect_fail:
+            ob.name = "metadata_numbers_" + ob.name
+            obs.append(ob)
     return obs
